@@ -18,7 +18,7 @@ generations of children.  One action per critical section / blocking operation:
 |         | `runStopEnd`      | all `Stop()`s returned: cancel the generation, unlock                                   |
 |         | `runFinish`       | `Transition(Stopped)` (or `setStateError`), deferred `runCancel()` and `done()`         |
 | Reload  | `rlEnter`         | `reloadMu.Lock()`, `Transition(Reloading)`; on failure `setStateError()`, return        |
-|         | `rlCallback res`  | `configCallback()`; error / nil: `setStateError()`, return                              |
+|         | `rlCallback res`, `rlAfterCb` | `configCallback()` returns `res`; then: error / nil: `setStateError()`, return (two steps: other threads run in between) |
 |         | `rlDecide`        | `getConfig()`, `hasMembershipChanged`                                                   |
 |         | `rlStopBegin` / `rlStopEnd` | `stopAllRunnables()` of `reloadWithRestart`                                    |
 |         | `rlSetConfig`     | `setConfig(newConfig)` (either path)                                                    |
@@ -68,7 +68,7 @@ inductive RunPc where
   deriving DecidableEq, Repr
 
 inductive RlPc where
-  | idle | entered | gotConfig (cfg : List (Nat × Nat)) | restart (cfg : List (Nat × Nat)) | skip (cfg : List (Nat × Nat))
+  | idle | entered | cbReturned (res : CbRes) | gotConfig (cfg : List (Nat × Nat)) | restart (cfg : List (Nat × Nat)) | skip (cfg : List (Nat × Nat))
   | stopping (cfg : List (Nat × Nat)) (pending : List Nat) | stoppedOld (cfg : List (Nat × Nat)) | configSet | children | finishing
   deriving DecidableEq, Repr
 
@@ -100,7 +100,7 @@ structure St where
 inductive Act where
   | runEnter | runBoot (res : CbRes) | runToRunning | runSelCtx | runSelStop | runSelErr
   | runToStopping | runStopBegin | runStopEnd | runFinish
-  | rlEnter | rlCallback (res : CbRes) | rlDecide | rlStopBegin | rlStopEnd | rlSetConfig | rlBoot
+  | rlEnter | rlCallback (res : CbRes) | rlAfterCb | rlDecide | rlStopBegin | rlStopEnd | rlSetConfig | rlBoot
   | rlChildReload | rlFinish
   | stopCall | cancelCtx | stopDone
   | reloadCall | reloadAck (st : Fsm) | retAck (r : RRet) (st : Fsm) | observe (st : Fsm)
@@ -187,10 +187,13 @@ def step (s : St) : Act → Option St
     | some f => some { s with fsm := f, rl := .entered, pendingRl := s.pendingRl - 1 }
     | none => some { s with fsm := .error, reloads := s.reloads + 1, pendingRl := s.pendingRl - 1 }
   | .rlCallback res =>
-    if s.rl != .entered then none else
-    match res with
-    | .ok cfg => some { s with rl := .gotConfig cfg }
-    | _ => some { s with fsm := .error, rl := .idle, reloads := s.reloads + 1 }
+    -- the callback is seen (by the harness) while it runs; what `Reload` does with its result comes afterwards
+    if s.rl != .entered then none else some { s with rl := .cbReturned res }
+  | .rlAfterCb =>
+    match s.rl with
+    | .cbReturned (.ok cfg) => some { s with rl := .gotConfig cfg }
+    | .cbReturned _ => some { s with fsm := .error, rl := .idle, reloads := s.reloads + 1 }
+    | _ => none
   | .rlDecide =>
     match s.rl with
     | .gotConfig cfg =>
